@@ -9,6 +9,9 @@ claimed={
  "C03":(E2,"Generated types x value pools: all pairs and triples checked for range, antisymmetry, transitivity, ==0 iff Equal, direction of single-position differences, curried form. Exploration only.","trusts the vref reference and mutation constructor (self-tested)","property-based testing (rapid): order laws + metamorphic single-mutation direction"),
  "C04":(E2,"Equal-by-construction pairs (rebuild, permuted maps, capacity, +-0) must hash alike; repeatability in-process and across two processes; argument snapshot unchanged. Exploration only.","trusts vref rebuild/rewrites (self-tested)","property-based testing (rapid): metamorphic equality-preserving rewrites, cross-process differential"),
  "C05":(E2,"Generated sources x independent prior destinations; result equality, source snapshot, allocation-set disjointness and write-independence (scribbling). Exploration only.","trusts vref Addrs/Scribble (self-tested); string bytes and zero-size objects not counted as shared","property-based testing (rapid): reference equality + aliasing invariants over generated heaps"),
+ "C13":(E2,"Generated element types x lists/maps with duplicates; permutation, sortedness under derived Compare, exactly-once keys, membership and extremality of min/max. Exploration only.","trusts vref; order = derived Compare (judged by C03)","property-based testing (rapid): validity predicates (permutation, sortedness, extremality) over generated lists"),
+ "C14":(E2,"Generated element types x lists with Equal-but-not-identical duplicates x logging predicates, against a list/set reference model under derived Equal. Exploration only.","trusts vref; derived Equal cross-checked with the structural reference per pair","property-based testing (rapid): reference list/set model + predicate call-log invariants"),
+ "C17":(E2,"Scripted logging f over generated slices and strings (multi-byte, invalid UTF-8), slices of slices with nil/empty inner lists; compared with map over elements / []rune and concatenation. Exploration only.","trusts vref encoder","property-based testing (rapid): reference map/concat model with call logs"),
 }
 checks=[]
 for pid,(eng,text,note,tech) in claimed.items():
